@@ -412,11 +412,14 @@ def r3_tasks_joined(facts, rep, st):
 
 
 POISON_FIELD = "poisoned"
+_facts_for_poison = [None]
+_depth = [0]
 POISON_FNS = set()  # functions verified (on every run) to store `true` into the poisoned flag on all paths
 
 
 def find_poison_fns(facts):
     POISON_FNS.clear()
+    _facts_for_poison[0] = facts
     for cand in ("nomt::store::Store::poison",):
         body = facts.bodies.get(cand)
         if body is None:
@@ -439,6 +442,20 @@ def _poison_blocks(body):
                     out.add(b)
         if c in POISON_FNS:
             out.add(b)
+        # `fallible(..).map_err(|e| { poison(); e })`: the Err value passes through a closure that always poisons
+        if _facts_for_poison[0] is not None and c.rsplit("::", 1)[-1] in ("map_err", "or_else", "inspect_err") and c.startswith("core::result::Result") and len(t["args"]) >= 2 and _depth[0] < 2:
+            facts = _facts_for_poison[0]
+            for r in trace(body, t["args"][1]):
+                if r.kind == "agg" and r.obj is not None and r.obj.get("ak") == "closure" and r.obj.get("name") in facts.bodies:
+                    cb = facts.bodies[r.obj["name"]]
+                    _depth[0] += 1
+                    try:
+                        cpb = _poison_blocks(cb)
+                    finally:
+                        _depth[0] -= 1
+                    rets = cb.return_blocks()
+                    if cpb and rets and all(any(cb.dominates(p, x) for p in cpb) for x in rets):
+                        out.add(b)
     return out
 
 
